@@ -104,3 +104,16 @@ Check (eq_refl : block_ok = fun si bps chans =>
   si_bps si = bps /\ si_channels si = N.of_nat (length chans) /\
   exists n, 1 <= n /\ n <= 65535 /\ n <= si_max_bs si /\
     Forall (fun c => N.of_nat (length c) = n /\ forallb (fits bps) c = true) chans).
+Check (C16_encoder_frames_self_describing : forall o L rate bps number chans bytes rest rc,
+  enc_frame_bytes o L rate bps number chans = Some bytes ->
+  block_shape bps chans -> number <= MAX_FRAME_NUMBER ->
+  code_of_rate rate = Some rc -> rc <> 0 -> code_of_bps bps <> 0 ->
+  exists h, dec_frame None no_check (bytes ++ rest) = Ok (h, chans, rest) /\
+            h_rate h = rate /\ h_bps h = bps /\ h_number h = number /\ h_bs h = block_len chans).
+Check (C16_encoder_frames_scanned : forall o L rate bps number chans bytes rest rc g fuel,
+  enc_frame_bytes o L rate bps number chans = Some bytes ->
+  block_shape bps chans -> number <= MAX_FRAME_NUMBER ->
+  code_of_rate rate = Some rc -> rc <> 0 -> code_of_bps bps <> 0 ->
+  syncless g = true -> (length (g ++ bytes ++ rest) < fuel)%nat ->
+  exists h, scan fuel (g ++ bytes ++ rest) = Ok (h, chans, rest) /\
+            h_rate h = rate /\ h_bps h = bps /\ h_number h = number /\ h_bs h = block_len chans).
